@@ -234,7 +234,7 @@ def scanR : List RFrame → Nat → Nat × Option Nat
     | (tr1, e1) => if f.written ≤ tr1 ∧ f.more = true then (f.written, some 0) else (tr1, e1.map (· + 1))
 
 /-- `size_t` subtraction: wraps modulo 2^64 (reached only on streams the printer cannot produce, and by
-`lyb_skip_siblings` — finding F50) -/
+`lyb_skip_siblings` — finding F69) -/
 def subWrap (a n : Nat) : Nat := if n ≤ a then a - n else a + 2 ^ 64 - n
 
 def subWritten (n : Nat) (fs : List RFrame) : List RFrame := fs.map fun f => { f with written := subWrap f.written n }
